@@ -183,6 +183,17 @@ theorem per_sender_projection (ttl : Nat) (h : List (String × Nat)) (s : String
         rw [ih]; simp [he, stepMulti, Foundation.upd_other _ _ _ _ this]
   exact gen h (fun _ => ([], []))
 
+/-- `is13_iff_decimal_length`: the model's format test `10^12 ≤ n < 10^13` is exactly the Go test
+    `len(strconv.FormatUint(n, 10)) == 13`: the decimal representation of `n` (Lean's `Nat.toDigits 10`,
+    the same digit-by-digit division by ten) has 13 characters iff `n` lies in that interval. -/
+theorem is13_iff_decimal_length (n : Nat) :
+    is13 n = true ↔ (Nat.toDigits 10 n).length = Foundation.Facts.lenTimeInMilliseconds := by
+  have h13 := @Nat.length_toDigits_le_iff 10 n 13 (by omega) (by omega)
+  have h12 := @Nat.length_toDigits_le_iff 10 n 12 (by omega) (by omega)
+  show is13 n = true ↔ (Nat.toDigits 10 n).length = 13
+  simp only [is13, Bool.and_eq_true, decide_eq_true_eq]
+  omega
+
 /-- per-run obligation on the extracted constants: the validity window is 50 s and nonces have
     13 digits, the numbers the property statement quotes. -/
 theorem facts_ttl : Foundation.Facts.defaultNonceTTL = 50 ∧ Foundation.Facts.lenTimeInMilliseconds = 13 := by
